@@ -44,7 +44,11 @@ def emit_problem(rng, nprng, ty, k, n, cap, opts):
             i = rng.randint(n, cap - 1)
             writes.insert(rng.randint(0, len(writes)), (i, nprng.standard_normal(k) * opts["scale"] * 1e3, 1e3 * opts["scale"]))
     weighted = opts["est"] == "XW"
+    default_w = opts.get("default_weights", False)
     for i, row, y in writes:
+        if default_w:      # row and y only: the weights are the ones the class set when it (re)allocated, i.e. 1
+            toks += ["Q", str(i), str(k)] + [hexf(rnd(v, ty)) for v in row] + [hexf(rnd(y, ty))]
+            continue
         w = rng.choice([1.0, 0.5, 2.0, rng.uniform(0.1, 10.0)]) if weighted else rng.choice([1.0, 1.0, rng.uniform(0.1, 10.0)])
         toks += ["R", str(i), str(k)] + [hexf(rnd(v, ty)) for v in row] + [hexf(rnd(y, ty)), hexf(rnd(w, ty))]
     pre = opts.get("precond")
@@ -101,6 +105,10 @@ def gen_structured(rng, nprng, count, maxn, tier):
             opts = {"cond": cond, "scale": scale, "colratio": colratio, "noise": rng.choice([0.0, 1e-3, 0.1, 1.0]),
                     "est": est, "precond": rng.choice([None, None, "diag", "full", "fullA"]),
                     "xscale": 10 ** rng.uniform(-2, 2)}
+            if pi == 0 and ctor in ("C0", "C1") and rng.random() < 0.3:
+                opts["default_weights"] = True
+                opts["est"] = "XW"
+                opts["stale"] = 0.0
             t, cap = emit_problem(rng, nprng, ty, k, n, cap, opts)
             toks += t
         cases.append("ls %s %s" % (ty, " ".join(toks)))
@@ -225,6 +233,11 @@ def spec_replay(case):
             row = [rf() for _ in range(m)]
             y = rf(); w = rf()
             rows[i] = (row, y, w)
+        elif op == "Q":
+            i = int(t[p]); m = int(t[p + 1]); p += 2
+            row = [rf() for _ in range(m)]
+            y = rf()
+            rows[i] = (row, y, rows[i][2] if i in rows else 1.0)    # weights default to 1 (setDataSize on growth)
         elif op in ("P", "A"):
             kk = int(t[p]); p += 1
             A = [[rf() for _ in range(kk)] for _ in range(kk)]
